@@ -740,6 +740,8 @@ pub struct QuotedStrSplitIter<'a> {
     quotes: InQuotes,
     current: String,
     escaped: usize,
+    /// If the current item has had a quoted section. Then, it's returned even if it's empty (`""`).
+    quoted: bool,
 }
 impl Iterator for QuotedStrSplitIter<'_> {
     type Item = String;
@@ -749,7 +751,8 @@ impl Iterator for QuotedStrSplitIter<'_> {
             let c = match self.iter.next() {
                 Some(c) => c,
                 None => {
-                    if !self.current.is_empty() {
+                    if !self.current.is_empty() || self.quoted {
+                        self.quoted = false;
                         return Some(std::mem::take(&mut self.current));
                     }
                     return None;
@@ -772,9 +775,10 @@ impl Iterator for QuotedStrSplitIter<'_> {
             if self.escaped != 1 {
                 match c {
                     ' ' if !self.quotes.quoted() => {
-                        if self.current.is_empty() {
+                        if self.current.is_empty() && !self.quoted {
                             continue;
                         }
+                        self.quoted = false;
                         return Some(std::mem::replace(
                             &mut self.current,
                             String::with_capacity(16),
@@ -783,6 +787,7 @@ impl Iterator for QuotedStrSplitIter<'_> {
                     '"' => match self.quotes {
                         InQuotes::No => {
                             self.quotes = InQuotes::Double;
+                            self.quoted = true;
                             continue;
                         }
                         InQuotes::Double => {
@@ -794,6 +799,7 @@ impl Iterator for QuotedStrSplitIter<'_> {
                     '\'' => match self.quotes {
                         InQuotes::No => {
                             self.quotes = InQuotes::Single;
+                            self.quoted = true;
                             continue;
                         }
                         InQuotes::Single => {
@@ -834,6 +840,7 @@ pub fn quoted_str_split(s: &str) -> QuotedStrSplitIter {
         quotes: InQuotes::No,
         current: String::with_capacity(16),
         escaped: 0,
+        quoted: false,
     }
 }
 /// Encodes, to be decoded by [`quoted_str_split`], `src` by appending to `dest`.
